@@ -14,6 +14,7 @@ container!(CF2 { a: bool, b: [u8; 3], c: CF });
 container!(CV { a: Vec<u8> });
 container!(CM { a: u16, b: Vec<u16>, c: u32 });
 container!(CVV { a: Vec<u8>, b: Vec<u16> });
+container!(CBB { a: Bytes, x: u8, b: Bytes, c: Vec<u8> });
 container!(CFVFV { a: u8, b: Vec<u8>, c: u16, d: Vec<Vec<u8>>, e: u8 });
 container!(CVF { a: Vec<u16>, b: u64 });
 container!(CN { a: CM, b: CF, c: Vec<CM>, d: Vec<CF> });
@@ -26,6 +27,9 @@ container!(CSix { a: Vec<u8>, b: Vec<u8>, c: Vec<u8>, d: Vec<u8>, e: Vec<u8>, f:
 container!(CNine { a: u8, b: Vec<u8>, c: u8, d: Vec<u8>, e: u8, f: Vec<u8>, g: u8, h: Vec<u8>, i: u8 });
 
 union_enum!(Un1 { A(u8) = 0 });
+// zero-sized in memory but variable-size on the wire
+union_enum!(UnZ { A([u8; 0]) = 0 });
+transparent_struct!(TsZ(UnZ));
 union_enum!(Un2 { A(u8) = 0, B(Vec<u8>) = 1 });
 union_enum!(Un3 { A(u16) = 0, B(CM) = 1, C(Option<u8>) = 2 });
 union_enum!(UnN { A(Un2) = 0, B(Vec<Un2>) = 1 });
@@ -70,6 +74,7 @@ macro_rules! for_each_type {
         $f::<Vec<Vec<u16>>>($ctx); $f::<Vec<Vec<Vec<u8>>>>($ctx); $f::<Vec<Option<u16>>>($ctx);
         $f::<Vec<[u8; 0]>>($ctx); $f::<Vec<(u8, u16)>>($ctx); $f::<Vec<(u8, Vec<u8>)>>($ctx);
         $f::<Vec<B256>>($ctx); $f::<Vec<Bytes>>($ctx); $f::<Vec<AU256>>($ctx); $f::<Vec<NonZeroUsize>>($ctx);
+        $f::<Vec<UnZ>>($ctx); $f::<Vec<(UnZ, UnZ)>>($ctx); $f::<Vec<TsZ>>($ctx); $f::<(u8, [u8; 0])>($ctx); $f::<(Vec<u8>, [u8; 0])>($ctx); $f::<Vec<(u16, [u8; 0])>>($ctx);
         $f::<Vec<CF>>($ctx); $f::<Vec<CM>>($ctx); $f::<Vec<C0>>($ctx); $f::<Vec<Un2>>($ctx); $f::<Vec<Tag3>>($ctx);
         // SmallVec
         $f::<SmallVec<[u16; 4]>>($ctx); $f::<SmallVec<[Vec<u8>; 2]>>($ctx); $f::<SmallVec<[[u8; 0]; 2]>>($ctx);
@@ -113,7 +118,7 @@ macro_rules! for_each_type {
         $f::<Vec<BitVector<U12>>>($ctx); $f::<Vec<BitVectorDynamic>>($ctx);
         // derived
         $f::<C0>($ctx); $f::<C1>($ctx); $f::<CF>($ctx); $f::<CF2>($ctx); $f::<CV>($ctx); $f::<CM>($ctx);
-        $f::<CVV>($ctx); $f::<CFVFV>($ctx); $f::<CVF>($ctx); $f::<CN>($ctx); $f::<CO>($ctx); $f::<CB>($ctx);
+        $f::<CVV>($ctx); $f::<CBB>($ctx); $f::<(Bytes, Bytes)>($ctx); $f::<Vec<(u8, u16)>>($ctx); $f::<Option<Bytes>>($ctx); $f::<CFVFV>($ctx); $f::<CVF>($ctx); $f::<CN>($ctx); $f::<CO>($ctx); $f::<CB>($ctx);
         $f::<CZ>($ctx); $f::<CT>($ctx); $f::<CArc>($ctx); $f::<CSix>($ctx); $f::<CNine>($ctx);
         $f::<Un1>($ctx); $f::<Un2>($ctx); $f::<Un3>($ctx); $f::<UnN>($ctx); $f::<Un127>($ctx); $f::<Un128>($ctx);
         $f::<Tag1>($ctx); $f::<Tag3>($ctx); $f::<Tag128>($ctx);
